@@ -60,16 +60,18 @@ type cdef struct {
 
 // pgen generates expressions and statements over one integer type.
 type pgen struct {
-	t      *rapid.T
-	ty     ityp
-	vars   []string // assignable variables in scope (input dependent)
-	reads  []string // read-only input-dependent operands (a, b, x)
-	stat   []string // operands with a value known at compile time (package variables)
-	consts []cdef
-	calls  []string // call templates with %s for the argument
-	ncalls int      // calls emitted by leaf (bounded: callees are inlined)
-	mults  int
-	sb     strings.Builder
+	t        *rapid.T
+	ty       ityp
+	vars     []string // assignable variables in scope (input dependent)
+	reads    []string // read-only input-dependent operands (a, b, x)
+	stat     []string // operands with a value known at compile time (package variables)
+	consts   []cdef
+	calls    []string // call templates with %s for the argument
+	ncalls   int      // calls emitted by leaf (bounded: callees are inlined)
+	mults    int
+	nbuiltin int
+	noIntern bool // history programs do not intern: the symbol table of a shared Params object is state by design
+	sb       strings.Builder
 }
 
 // maxMults bounds the multiplications of one function (a 64-bit multiplier
@@ -192,6 +194,30 @@ func (g *pgen) stmts(n, indent int, tags map[string]bool) {
 	for i := 0; i < n; i++ {
 		k := rapid.IntRange(0, 9).Draw(g.t, "stmt")
 		switch {
+		case indent == 1 && rapid.IntRange(0, 7).Draw(g.t, "builtin") == 0:
+			// A built-in whose value is a number fixed at compile time and
+			// kept in a table of the Params object (intern), or derived
+			// from a type (size, len).
+			tags["has-builtin"] = true
+			name := fmt.Sprintf("n%d", g.nbuiltin)
+			g.nbuiltin++
+			kind := rapid.IntRange(0, 2).Draw(g.t, "builtinkind")
+			if g.noIntern && kind < 2 {
+				kind = 2
+			}
+			switch kind {
+			case 0, 1:
+				sym := rapid.SampledFrom(internSymbols).Draw(g.t, "symbol")
+				if rapid.Bool().Draw(g.t, "internvar") {
+					g.line(indent, "var %s int32 = intern(%s)", name, sym)
+				} else {
+					g.line(indent, "%s := intern(%s)", name, sym)
+				}
+			case 2:
+				g.line(indent, "%s := size(%s)", name, rapid.SampledFrom(g.vars).Draw(g.t, "sizeof"))
+			}
+			v := rapid.SampledFrom(g.vars).Draw(g.t, "builtinuse")
+			g.line(indent, "%s = (%s + %s(%s))", v, v, g.ty.name, name)
 		case k <= 2 && indent == 1:
 			name := fmt.Sprintf("v%d", len(g.vars))
 			if rapid.Bool().Draw(g.t, "vardecl") {
@@ -225,6 +251,11 @@ func (g *pgen) stmts(n, indent int, tags map[string]bool) {
 		}
 	}
 }
+
+// internSymbols are the identifiers handed to intern(): the ID of a symbol is
+// its position in the table that lives in the Params object, so it depends on
+// which symbols earlier compilations on the same Params interned.
+var internSymbols = []string{"red", "green", "blue", "alpha", "beta", "gamma", "x0", "x1"}
 
 var constTypes = []string{"", "", "uint8", "uint16", "uint32", "uint64", "int8", "int16",
 	"int32", "int64", "uint7", "int33"}
@@ -300,7 +331,7 @@ func drawSingleProgram(t *rapid.T, forceMult bool) (string, []string) {
 	writeConsts(&sb, t, consts)
 	sb.WriteString("\n")
 
-	g := &pgen{t: t, ty: ty, reads: []string{"a", "b"}, consts: consts}
+	g := &pgen{t: t, ty: ty, reads: []string{"a", "b"}, consts: consts, noIntern: forceMult}
 	g.line(0, "func main(a %s, b %s) %s {", ty.name, ty.name, ty.name)
 	op0 := rapid.SampledFrom([]string{"*", "+", "^", "-", "&", "*"}).Draw(t, "op0")
 	if forceMult {
@@ -328,7 +359,7 @@ func drawSingleProgram(t *rapid.T, forceMult bool) (string, []string) {
 	if g.mults > 0 {
 		tags["has-mult"] = true
 	}
-	for _, k := range []string{"has-if", "has-loop", "has-mult"} {
+	for _, k := range []string{"has-if", "has-loop", "has-mult", "has-builtin"} {
 		if tags[k] {
 			res = append(res, k)
 		}
